@@ -50,6 +50,7 @@ type Prop struct {
 	ImplM      func(in, model []int64) []int64 // optional: implementation driven by the model's answer (schedules)
 	Shrink     func(in []int64) [][]int64      // optional: smaller candidate inputs
 	JudgeLimit int                             // relational properties: cases longer than this are not given to the judge (one evaluation can take many minutes): implementation = model is accepted (the model's own output is proved to pass the judge), a difference is reported as a difference
+	SpecSkip   func(in []int64) bool           // optional: cases outside the domain of the specification that the (more detailed) model still describes: compared with the model only
 	Pure       bool                            // the implementation run of a case touches only objects of its own: the same case must give the same result while other calls run at the same time (concurrent phase)
 	Isolate    func(in []int64) bool           // optional: cases whose implementation run may kill the process (an allocation of 2^40 bytes is a fatal error, not a panic) run in a child process with an address-space limit
 	Known      func(in, out []int64) string    // optional: id of the known finding this failing case belongs to
@@ -410,7 +411,11 @@ func (t *T) eval2(in []int64) (*Failure, []int64) {
 		impl = SafeImpl(&q, in)
 	}
 	specOK := true
-	switch p.SpecMode {
+	mode := p.SpecMode
+	if p.SpecSkip != nil && p.SpecSkip(in) {
+		mode = "none"
+	}
+	switch mode {
 	case "equal":
 		if p.Oracle != nil {
 			spec = t.M.CallOracle(p, 1, in)
